@@ -133,3 +133,62 @@ Print Assumptions C19_input_block_query.
 Print Assumptions C19_output_block_query.
 Print Assumptions C19_region_texts.
 Print Assumptions C19_nonvacuous.
+
+(* ================================================================== characters -> plane (canvas.rs), owner: ext-canvas.
+   Model: C19/Canvas.v (executable transliteration of scan + Canvas::plane + Plane::finalize, compared with the code cell by cell
+   in the check).  Drawing: C19/CanvasDraw.v (regular style: every cell its own frame, one line of text per cell, any column widths,
+   any texts without box characters; `CanvasProofs.T d` is the character grid of the drawing d followed by the extra last line the
+   Rust canvas always has, `CanvasProofs.B d` the initial content of the other layers). *)
+From DV Require Import C19.Canvas C19.CanvasDraw C19.CanvasProofs C19.CanvasSweep.
+
+(* for EVERY well-formed regular drawing (any numbers of columns and lines, any widths, any plain texts) the passes of `scan` succeed:
+   no information item name, the main crossing at the first double cross (column rd_v1, line 2), the annotation crossing exactly when
+   drawn, no vertical crossing, the body rectangle = the whole drawing, and the THIN, BODY and GRID layers all equal to the drawing
+   with its double lines made single and its texts blanked (nothing to add to the grid of a regular drawing) *)
+Theorem C19_canvas_scan_regular : forall d, wf_rdraw d = true ->
+  scan_from (CanvasProofs.T d) (CanvasProofs.B d) = Ok (regular_canvas d) /\
+  cv_cross (regular_canvas d) = (X (rd_ws d) (rd_v1 d), 2) /\
+  cv_horz (regular_canvas d) = option_map (fun k => (X (rd_ws d) k, 2)) (rd_v2 d) /\
+  cv_vert (regular_canvas d) = None /\ cv_name (regular_canvas d) = None /\
+  cv_rect (regular_canvas d) = (0, 0, Wd d, Hd d) /\
+  cv_body (regular_canvas d) = cv_thin (regular_canvas d) /\ cv_grid (regular_canvas d) = cv_thin (regular_canvas d).
+Proof. intros d Hwf. split; [now apply scan_regular_drawing|]. repeat split. Qed.
+
+(* for EVERY cell of EVERY well-formed regular drawing: the region walk on THIN and the rectangle walk on GRID started at the cell's
+   top-left corner both close on the frame of the cell as drawn, and the text read from that frame is the cell text as drawn *)
+Theorem C19_canvas_cells_regular : forall d i j, wf_rdraw d = true -> i < nrows d -> j < ncols d ->
+  recognize_region (cv_thin (regular_canvas d)) (X (rd_ws d) j, 2 * i) = Ok (cell_rect d i j) /\
+  recognize_rectangle (cv_grid (regular_canvas d)) (X (rd_ws d) j, 2 * i) = Ok (cell_rect d i j) /\
+  text_from_rect (cv_text (regular_canvas d)) (cell_rect d i j) = Ok (cell_text d i j).
+Proof. exact cells_regular_drawing. Qed.
+
+(* PARTIAL (bounded): the whole chain text -> lines -> canvas -> plane gives exactly the drawn plane (information item name absent,
+   every cell with its region number, rectangle and text, the double-line cells and crossings) for the tables sample ni no na nr with
+   1..3 inputs, 1..3 outputs, 0..2 annotations, 1..3 rules (81 shapes, column widths 2..4, finite sweep by vm_compute).
+   MISSING for the statement `canvas_cplane (draw d) = Ok (None, expected_plane d)` for every wf_rdraw d: (a) splitting the text back into
+   the lines of the grid (scan_layers (draw d) = (T d, B d)), (b) the enumeration of the top-left corners of THIN / GRID line by line,
+   the numbering of the regions and the assembly of the plane rows by the walk of Canvas::plane; the per-cell steps of (b) are
+   C19_canvas_cells_regular, the passes before it C19_canvas_scan_regular, both for every shape *)
+Theorem C19_draw_roundtrip_regular_bounded_partial : forall ni no na nr, In (ni, no, na, nr) shapes ->
+  let d := table_drawing (sample ni no na nr) in
+  wf_rdraw d = true /\ outcome_eqb (canvas_cplane (draw d)) (Ok (None, expected_plane d)) = true.
+Proof. exact plane_bounded. Qed.
+
+(* PARTIAL (bounded, same 81 shapes): text -> table end to end: the plane built from the text (region texts through an injective coding of
+   strings) is recognised by the plane-level model as rules-as-rows with the drawn hit policy, the drawn number of rules and exactly the
+   fields of the drawn table.  MISSING for every shape: the general form of the previous theorem, then composition with
+   C19_plane_roundtrip_rows (region numbers of the code instead of the ids of layout_rows: recognition with one header line never
+   compares ids) *)
+Theorem C19_text_to_table_bounded_partial : forall ni no na nr, In (ni, no, na, nr) shapes -> table_ok (ni, no, na, nr) = true.
+Proof. exact table_bounded. Qed.
+
+Example C19_canvas_nonvacuous :
+  let d := table_drawing (sample 2 2 1 2) in
+  wf_rdraw d = true /\ ncols d = 6 /\ nrows d = 3 /\ rd_v1 d = 3 /\ rd_v2 d = Some 5 /\ length (draw d) = 161 /\ plane_ok (2, 2, 1, 2) = true /\ table_ok (2, 2, 1, 2) = true.
+Proof. vm_compute. repeat split. Qed.
+
+Print Assumptions C19_canvas_scan_regular.
+Print Assumptions C19_canvas_cells_regular.
+Print Assumptions C19_draw_roundtrip_regular_bounded_partial.
+Print Assumptions C19_text_to_table_bounded_partial.
+Print Assumptions C19_canvas_nonvacuous.
